@@ -4,7 +4,8 @@ package main
 //
 // Logical threads are goroutines that park (a) at the verif yield points of resource.GetAndUpdate
 // ("gau.afterRead": the stored value was read; "gau.beforeLock": the change function is done, the
-// write lock is next) and (b) inside the injected resource.Clock: a call of Now() by a logical thread
+// write lock is next), (a') after a plain Value.Get / Collection.Get ("value.get", "coll.get": reached with the
+// read lock released) and (b) inside the injected resource.Clock: a call of Now() by a logical thread
 // that is not yet in its commit section takes the current instant and then parks — exactly a goroutine
 // that is descheduled right after reading the wall clock. No lock is held at any park point. The
 // controller releases one thread at a time, so a schedule (list of thread ids and clock advances) is
@@ -71,6 +72,17 @@ func (c *cctl) self() *cthread {
 }
 
 func (c *cctl) hook(point string) {
+	if point == "value.get" || point == "coll.get" {
+		// a read of the stored value by the model outside any transaction (a getter): the thread may be descheduled
+		// right after it, before whatever write it goes on to make. The models as they are never do this inside a
+		// writing call, so no call's trace has a "g"; a variant that computes from such a snapshot has, and the
+		// schedules then run other threads' calls between its read and its write.
+		if th := c.self(); th != nil && !th.inCommit {
+			th.clockParked = false
+			th.park("g")
+		}
+		return
+	}
 	if point != "gau.afterRead" && point != "gau.beforeLock" {
 		return
 	}
